@@ -75,7 +75,7 @@ Definition lzma1_new_mem_limit (input : list Z) (mem_limit_kb : Z) (preset : opt
 
 (* the while loop of read_decode; [len] bytes still wanted, [acc] = bytes produced, newest first *)
 Fixpoint lzma1_read_loop (fuel : nat) (s : lzma1) (len : Z) (acc : list Z) : outcome (list Z * lzma1) :=
-  if len <=? 0 then Ok (rev acc, s) else
+  if len <=? 0 then Ok (frev acc, s) else
   match fuel with
   | O => Fuel
   | S f =>
@@ -84,12 +84,16 @@ Fixpoint lzma1_read_loop (fuel : nat) (s : lzma1) (len : Z) (acc : list Z) : out
       let w := lzwin_set_limit (l_win s) copy_size_max in
       do r <- lzma_decode (l_coder s) w (l_rc s) (l_probs s);
       let '(c1, w1, status, d1, t1) := r in
+      (* rc.take_error(): a byte fetched past the end of the source (read_exact -> UnexpectedEof)
+         fails the call whatever was decoded (fix edbc5fd; before it the zeros were decoded) *)
+      if 0 <? rd_over d1 then Err E_UNEXPECTED_EOF else
       (* Err from decode: fatal unless it is the end marker of a stream of unknown size *)
       let after :=
         match status with
         | Ok _ => Ok (l_end_reached s, d1)
         | Err e =>
             if negb (l_remaining s =? U64_MAX) || negb (c_rep0 c1 =? 4294967295) then Err e
+            else if 0 <? rd_over (rdec_normalize d1) then Err E_UNEXPECTED_EOF
             else Ok (true, rdec_normalize d1)
         | Panic e => Panic e
         | Fuel => Fuel
@@ -103,7 +107,7 @@ Fixpoint lzma1_read_loop (fuel : nat) (s : lzma1) (len : Z) (acc : list Z) : out
       let s1 := mkLzma1 c1 w2 d2 t1 end2 remaining in
       let acc1 := rev_append out acc in
       if end2 then
-        if lzwin_has_pending w2 then Err E_INVALID_DATA else Ok (rev acc1, s1)
+        if lzwin_has_pending w2 then Err E_INVALID_DATA else Ok (frev acc1, s1)
       else lzma1_read_loop f s1 (len - copied) acc1
   end.
 
@@ -124,7 +128,7 @@ Fixpoint lzma1_read_all (fuel : nat) (s : lzma1) (sizes : list Z) (all : list Z)
       let '(sz, rest) := match sizes with [] => (4096, all) | x :: r => (x, r) end in
       do r <- lzma1_read s sz;
       let '(out, s1) := r in
-      if (0 <? sz) && (zlen out =? 0) then Ok (rev acc, s1)
+      if (0 <? sz) && (zlen out =? 0) then Ok (frev acc, s1)
       else lzma1_read_all f s1 (match rest with [] => all | _ => rest end) all (rev_append out acc)
   end.
 
